@@ -58,7 +58,11 @@ WhyXonly(c) == IF c.enc # BE32(c.pt[1]) THEN "xonly-bytes"
 WhyReject(c) ==
   IF c.why \in {"nonres-02", "nonres-xonly"} /\ ~(CongOK(Add(Mul(Mul(c.x, c.x), c.x), Seven), c.v, c.vcert) /\ CongOK(Add(Mul(c.w, c.w), c.v), <<>>, c.cert) /\ ~IsZero(c.v))
   THEN "bad-certificate"
-  ELSE IF c.accepted THEN "accepts-non-point" ELSE ""
+  \* coordinates >= p: the byte string's own coordinate field is compared with p here, not taken from the label
+  ELSE IF c.why \in {"x>=p", "04-x>=p"} /\ Lt(FromBE(Slice(c.raw, 2, 33)), PField) /\ (Len(c.raw) < 65 \/ Lt(FromBE(Slice(c.raw, 34, 65)), PField)) THEN "bad-certificate"
+  ELSE IF c.why = "04-y>=p" /\ Lt(FromBE(Slice(c.raw, 34, 65)), PField) THEN "bad-certificate"
+  ELSE IF c.why = "xonly>=p" /\ Lt(FromBE(c.raw), PField) THEN "bad-certificate"
+  ELSE IF c.accepted THEN "accepts-non-point:" \o c.why ELSE ""
 Why(c) == CASE c.kind = "rmul" -> WhyRmul(c)
             [] c.kind = "ident" -> (IF PtEq(c.lhs, c.rhs) THEN "" ELSE "identity-fails")
             [] c.kind = "sec" -> WhySec(c) [] c.kind = "xonly" -> WhyXonly(c) [] c.kind = "reject" -> WhyReject(c)
